@@ -22,6 +22,9 @@ CHECKS={
  "C09":dict(cat="exploration",technique="runtime monitoring: independent parsers (acorn+V8, encoding/json, own XML tokenizer + encoding/xml, own HTML tag scanner, own CSS lexical scanner) applied to input and output of every accepted call, plus a second minifier pass",
    text="For each of the six languages the real minifier is run on frozen test-table inputs, repository corpora and benchmark documents (whole), generated inputs and seeded mutations/splices, under default and non-default options; whenever the independent parser accepts the input it must accept the output, and the minifier must accept its own output again.",
    note="Sampled; validity of HTML is tag-level (WHATWG tokenizer parse errors) plus inline-script validity; CSS validity is lexical and CSS inputs are not mutated; known defects are identified by witness, by failure signature (call site) or kept out of the domain by input guards.",ref="DESIGN.md §5 C09"),
+ "C10":dict(cat="exploration",technique="runtime monitoring: hostile-input stress in child processes with pre-call logging, panic recovery, fatal-error attribution, allocation monitor, per-thread CPU-time scaling monitor over amplifier families, original-preserved monitor with canary",
+   text="Every minifier and exported helper is driven with truncated, mutated, spliced, random and non-UTF-8 inputs, deep-nesting and long-repetition amplifiers at sizes n/4n/16n and extreme option values, inside child processes that log each case before running it; a panic, a fatal runtime error, an allocation far beyond a linear budget, CPU time growing faster than 10x per 4x size step (confirmed in a fresh process), a watchdog expiry that repeats alone in a fresh process, or Bytes/String returning an error together with changed data (or touching the caller's slice/capacity) is a violation.",
+   note="Sampled; time is measured as per-thread CPU time, never wall clock, except the generous watchdog whose expiry must repeat alone; two quadratic behaviours are known findings identified by their amplifier family.",ref="DESIGN.md §5 C10"),
  "C12":dict(cat="exploration",technique="runtime monitoring: byte-equality against the plain call over exhaustive/seeded chunkings, offline checker over a logical-clock event log of the writer wrapper, HTTP header oracle, race-detector child, seeded schedule perturbation",
    text="Reader, Writer, Bytes, String, ResponseWriter, Middleware and MiddlewareWithError are driven with every partition of short inputs (exhaustive up to a length bound) and seeded partitions of long ones, paced consumers, injected Gosched/sleep at the real suspension points and three GOMAXPROCS values; output bytes and errors must equal the plain call, the recorded event order must show all destination writes and the minifier's return before Close returns with the minifier's error, and the HTTP wrappers must choose the minifier by Content-Type then path extension and never send a stale Content-Length.",
    note="Chunkings exhaustive only for short inputs; schedules are sampled (177+ distinct event interleavings per quick run); the parser dependency currently reads the whole stream first, so token-boundary refill bugs cannot exist today.",ref="DESIGN.md §5 C12"),
